@@ -103,3 +103,37 @@ impl TcpListener {
         self.port
     }
 }
+
+/// Stand-in for `std::time::{SystemTime, UNIX_EPOCH}` in verification builds: the "wall clock"
+/// follows tokio's clock, so that a paused/advanced runtime also moves the retry timestamps of the
+/// synchronizers (which read `SystemTime::now()`), deterministically.
+pub struct SystemTime(tokio::time::Instant);
+
+/// Marker for `duration_since(UNIX_EPOCH)`.
+pub struct Epoch;
+pub const UNIX_EPOCH: Epoch = Epoch;
+
+fn clock_base() -> tokio::time::Instant {
+    static BASE: OnceLock<Mutex<Option<tokio::time::Instant>>> = OnceLock::new();
+    let mut b = BASE.get_or_init(|| Mutex::new(None)).lock().unwrap();
+    let now = tokio::time::Instant::now();
+    match *b {
+        // a new runtime starts a new paused clock that may be behind the recorded base
+        Some(t) if t <= now => t,
+        _ => {
+            *b = Some(now);
+            now
+        }
+    }
+}
+
+impl SystemTime {
+    pub fn now() -> SystemTime {
+        SystemTime(tokio::time::Instant::now())
+    }
+    /// Milliseconds-resolution time since an arbitrary epoch 1_000_000 s before the first call.
+    pub fn duration_since(&self, _epoch: Epoch) -> Result<std::time::Duration, std::time::SystemTimeError> {
+        let base = clock_base();
+        Ok(std::time::Duration::from_secs(1_000_000) + self.0.saturating_duration_since(base))
+    }
+}
